@@ -223,7 +223,7 @@ Lemma class_group_m_flat full gk os :
   forallb (fun o => negb (has_dash (oname o))) nl = true ->
   nodupb (map oname nl) = true ->
   forallb ov_ok nl = true ->
-  as_class_group_m full gk (map MLeaf os) = Some (with_load gk (as_dotted gk (map eff nl))).
+  as_class_group_m false full gk (map MLeaf os) = Some (with_load gk (as_dotted gk (map eff nl))).
 Proof.
   intros nl Hne Hdash Hn Hd Hov.
   unfold as_class_group_m.
